@@ -42,13 +42,16 @@ SkipNets == <<
   Build(<<4>>, <<D(4, "relu", TRUE), D(4, "linear", FALSE), D(4, "relu", TRUE), D(2, "linear", FALSE)>>),
   Build(<<16>>, <<D(16, "relu", FALSE), C3(1, "relu"), C3(1, "linear"), D(3, "linear", TRUE)>>),
   Build(<<1, 4, 4>>, <<C3(2, "relu"), P2, D(8, "linear", FALSE), D(2, "linear", FALSE)>>),
-  Build(<<1, 3, 3>>, <<T3x(1, "linear"), C3(1, "relu"), D(9, "relu", TRUE)>>)
+  Build(<<1, 3, 3>>, <<T3x(1, "linear"), C3(1, "relu"), D(9, "relu", TRUE)>>),
+  \* non-square maps: rows and columns must not be confused when a flat vector is cut back into a map
+  Build(<<1, 3, 5>>, <<C3(2, "relu"), C3(1, "linear"), D(3, "linear", TRUE)>>)
 >>
 LoopNets == <<
   Build(<<4>>, <<D(4, "relu", TRUE), D(4, "linear", FALSE), D(4, "relu", TRUE), D(2, "linear", FALSE)>>),
   Build(<<1, 4, 4>>, <<C3(1, "relu"), C3(1, "linear"), D(3, "linear", TRUE)>>),
   Build(<<1, 3, 3>>, <<T2(1), P2, D(2, "linear", FALSE)>>),
-  Build(<<1, 4, 4>>, <<C3(1, "linear"), T3x(1, "relu"), C3(1, "relu")>>)
+  Build(<<1, 4, 4>>, <<C3(1, "linear"), T3x(1, "relu"), C3(1, "relu")>>),
+  Build(<<1, 3, 5>>, <<C3(1, "relu"), T3x(1, "linear"), D(3, "linear", TRUE)>>)
 >>
 
 \* feedback block record from its inner items, placed after output shape P
@@ -67,7 +70,8 @@ FbShapes == <<
   << <<1, 4, 4>>, <<C3(1, "relu")>>,        <<C3(1, "linear"), T3x(1, "relu")>>,      <<>> >>,
   << <<4>>,       <<D(4, "linear", TRUE)>>, <<D(4, "relu", FALSE), D(4, "linear", TRUE)>>, <<D(3, "relu", FALSE)>> >>,
   << <<4>>,       <<D(4, "linear", TRUE)>>, <<D(4, "relu", TRUE)>>,                         <<D(2, "linear", FALSE)>>, <<D(4, "linear", FALSE), D(4, "relu", TRUE)>> >>,
-  << <<1, 4, 4>>, <<>>,                     <<C3(1, "linear")>>,                      <<D(2, "linear", TRUE)>>,  <<C3(1, "relu")>> >>
+  << <<1, 4, 4>>, <<>>,                     <<C3(1, "linear")>>,                      <<D(2, "linear", TRUE)>>,  <<C3(1, "relu")>> >>,
+  << <<1, 3, 5>>, <<>>,                     <<C3(1, "relu"), T3x(1, "linear")>>,      <<D(2, "linear", FALSE)>> >>
 >>
 FbNet(s, loops, inskips, outskips, acc) ==
   LET pre  == Build(s[1], s[2])
